@@ -267,7 +267,7 @@ pub fn syntax_spaces(tier: Tier, oracle: Oracle) -> Vec<Box<dyn Space>> {
 /// duplicated, and replaced by each of a set of "worst offender" tokens; plus every uniform
 /// layout of the unmodified program.  `f` is called on every resulting text.
 pub fn for_each_fault(case: &ProgCase, f: &mut dyn FnMut(&str)) {
-    const OFFENDERS: [&str; 10] = ["(", ")", "{", "}", "[", ";", "=", "else", "def", "3"];
+    const OFFENDERS: [&str; 11] = ["(", ")", "{", "}", "[", ";", "=", "else", "def", "3", "§"];
     let toks = print_program(&case.stmts, Parens::Minimal);
     for sep in SEPARATORS {
         f(&layout_uniform(&toks, sep));
